@@ -256,6 +256,48 @@ func runC18(c *core.Ctx) {
 		c.Bad("C18.byz", "BeginBlock/shape", begin.Pos(), "the three punish calls are not all present in BeginBlock")
 		return
 	}
+	// evidence is handled before the frozen funds that mature in this block are paid out: paid
+	// first, the funds of a double signer leave unslashed, and the record (only marked deleted) is
+	// slashed afterwards — value that nobody loses is added to the slashed total
+	{
+		topLevel := func(s *core.Site) ssa.Instruction {
+			if s.Fn == begin {
+				return s.Instr
+			}
+			// the call in BeginBlock that leads to the helper containing s
+			for _, bs := range core.Sites(begin) {
+				if sc := bs.Common.StaticCallee(); sc != nil {
+					if sc == s.Fn {
+						return bs.Instr
+					}
+					for _, h := range c.Helpers(sc) {
+						if h == s.Fn {
+							return bs.Instr
+						}
+					}
+				}
+			}
+			return nil
+		}
+		var release *core.Site
+		for _, s := range c.GroupSites(begin) {
+			if s.MethodIs(core.PkgState+"/frozenfunds", "FrozenFunds", "GetFrozenFunds") {
+				release = s
+			}
+		}
+		if release == nil {
+			c.Unk("C18.byz", "BeginBlock/punish-before-release", begin.Pos(), "the release of matured frozen funds was not found in BeginBlock")
+		} else {
+			pi, ri := topLevel(pf), topLevel(release)
+			okOrder := pi != nil && ri != nil && pi != ri && !instrReaches(ri, pi) && instrReaches(pi, ri)
+			if pi != nil && pi == ri {
+				// both inside one helper: order within it
+				okOrder = pf.Fn == release.Fn && !instrReaches(release.Instr, pf.Instr) && instrReaches(pf.Instr, release.Instr)
+			}
+			c.Check(okOrder, "C18.byz", "BeginBlock/punish-before-release", pf.Pos(), "double-sign evidence is handled before the frozen funds of this height are released",
+				"the frozen funds maturing in this block are released before the block's double-sign evidence is handled: an offender's unbond that matures in the evidence block is paid out in full, and the paid-out record is slashed afterwards (total slashed grows, nobody loses the amount)")
+		}
+	}
 	c.Check(pf.Fn == pv.Fn && pv.Fn == pc.Fn && core.Dominates(pf.Instr, pv.Instr) && core.Dominates(pv.Instr, pc.Instr), "C18.byz", "BeginBlock/order", pc.Pos(), "frozen funds ≺ validator ≺ candidate", "the punish order changed: PunishByzantineCandidate re-freezes the remaining stakes, which must happen after the frozen-fund slash or they are slashed twice")
 	fromOK := core.Path(c.CallerArg(pf.Arg(0))) == "req.Header.Height"
 	toOK, _ := isBlockPlusPeriodPath(pf.Arg(1), "GetUnbondPeriod", "req.Header.Height")
